@@ -20,6 +20,9 @@ theorem bounds_are_rfc (t : IntTy) :
   ⟨(IntTy.min_max_values t).1, (IntTy.min_max_values t).2, IntTy.lybSize_bits t⟩
 
 example : IntTy.min .int64 = -9223372036854775808 ∧ IntTy.max .uint64 = 18446744073709551615 := by decide
+/-- non-vacuity (audit): the theorem instantiated at int16 (signed) and uint32 (unsigned) -/
+example : IntTy.min .int16 = -(2 ^ 15 : Int) ∧ 8 * IntTy.lybSize .uint32 = 32 :=
+  ⟨(bounds_are_rfc .int16).1, (bounds_are_rfc .uint32).2.2⟩
 
 /-- `lyplg_type_check_hints`, as executed by the translator, is RFC 7951 §6 typing: 8/16/32-bit integers need a number
     hint, 64-bit integers the num64 hint, decimal64/enumeration/bits/string a string hint, boolean the boolean hint. -/
@@ -53,6 +56,10 @@ theorem number_hints_select_base (t : IntTy) :
     checkHints Generated.LYD_HINT_DATA t.name = some 10 ∧ checkHints Generated.LYD_HINT_SCHEMA t.name = some 0 ∧
     (t.bits < 64 → checkHints Generated.LYD_VALHINT_DECNUM t.name = some 10) := by
   cases t <;> decide
+
+/-- non-vacuity (audit): the guarded third conjunct at a type below 64 bits (int16), the second at uint64 -/
+example : checkHints Generated.LYD_VALHINT_DECNUM "int16" = some 10 ∧ checkHints Generated.LYD_HINT_SCHEMA "uint64" = some 0 :=
+  ⟨(number_hints_select_base .int16).2.2 (by decide), (number_hints_select_base .uint64).2.1⟩
 
 /-- FULL STATEMENT (false on the pinned tree, finding F63): every source that offers no octal/hexadecimal hint parses a
     64-bit integer in base 10.  It is a statement about the generated table, so it is decided by inspecting the table: -/
@@ -89,6 +96,12 @@ theorem int64_sources_use_base10_iff : Int64SourcesUseBase10 ↔ int64Base10Chec
       Option.some.injEq] at this
     exact this
 
+-- AUDIT: the hypothesis of `int64_sources_use_base10_fails` is a closed equation about the *generated* table.  It holds on
+-- the pinned tree; in `Generated/ValBounds.lean` as committed (repair of F63 applied: entry 17 of the int64 row is 10) it is
+-- FALSE, so on that tree the theorem says nothing (`…_vacuous_for_repaired_table` below) and the full statement holds
+-- instead (`int64_sources_use_base10_iff` with `int64Base10Check = true`).  This is by design — the Props file must check
+-- against either table — and the disjunctive examples below show which branch the tree at hand is in.  No change of the
+-- statement is needed; a reader must not take `_fails` as a kernel-checked refutation for the tree at hand.
 /-- The F63 witness: if the JSON-string hints (`LYD_VALHINT_STRING | LYD_VALHINT_NUM64`, no base bit) get base 0 — they do
     on the pinned tree, see the example — the full statement is false: `"010"` is 8 there and 10 from XML. -/
 theorem int64_sources_use_base10_fails (h : checkHints (Generated.LYD_VALHINT_STRING + Generated.LYD_VALHINT_NUM64) "int64" = some 0) :
@@ -96,6 +109,20 @@ theorem int64_sources_use_base10_fails (h : checkHints (Generated.LYD_VALHINT_ST
   intro hall
   have := hall _ 0 (by decide) h
   cases this
+
+/-- AUDIT: with the repaired table (JSON-string hints of int64 select base 10) the hypothesis of
+    `int64_sources_use_base10_fails` is false: the theorem is vacuous there. -/
+theorem int64_sources_use_base10_fails_vacuous_for_repaired_table (h : checkHints 17 "int64" = some 10) :
+    ¬ (checkHints (Generated.LYD_VALHINT_STRING + Generated.LYD_VALHINT_NUM64) "int64" = some 0) := by
+  intro h'
+  rw [show Generated.LYD_VALHINT_STRING + Generated.LYD_VALHINT_NUM64 = 17 from rfl, h] at h'
+  cases h'
+
+/-- non-vacuity (audit): on the table at hand either the hypothesis of `_fails` holds (and the full statement is refuted)
+    or the full statement holds — checked against whichever table was generated -/
+example : (checkHints (Generated.LYD_VALHINT_STRING + Generated.LYD_VALHINT_NUM64) "int64" = some 0 ∧ ¬ Int64SourcesUseBase10) ∨
+    Int64SourcesUseBase10 := by
+  rw [int64_sources_use_base10_iff]; decide
 
 example : (checkHints 17 "int64" = some 0 ∧ int64Base10Check = false ∧ storeInt .int64 [] 17 [48, 49, 48] = .ok 8) ∨
     (checkHints 17 "int64" = some 10 ∧ int64Base10Check = true ∧ storeInt .int64 [] 17 [48, 49, 48] = .ok 10) := by decide
@@ -109,9 +136,52 @@ theorem same_verdict_all_sources (t : IntTy) (range : List (Int × Int)) (fd : N
   ⟨storeInt_hints_irrelevant t range h1 h2 s, storeDec64_hints_irrelevant fd range h1 h2 s⟩
 
 example : checkHints Generated.LYD_HINT_DATA "int8" = checkHints Generated.LYD_VALHINT_DECNUM "int8" := by decide
+/-- non-vacuity (audit): two different hint sets (XML/API data vs. JSON number) with the same verdict, an accepted value -/
+example : storeInt .int8 [] Generated.LYD_HINT_DATA [49, 50] = storeInt .int8 [] Generated.LYD_VALHINT_DECNUM [49, 50] ∧
+    storeInt .int8 [] Generated.LYD_VALHINT_DECNUM [49, 50] = .ok 12 :=
+  ⟨(same_verdict_all_sources .int8 [] 1 Generated.LYD_HINT_DATA Generated.LYD_VALHINT_DECNUM [49, 50]).1 (by decide), by decide⟩
+
+-- AUDIT: the docstring of `same_verdict_all_sources` speaks of "the stores", the statement covers `storeInt` and `storeDec64`
+-- only (2 of the 6 modelled store callbacks).  Nothing is false — the other four read the hints through `checkHints` alone as
+-- well — but it was not stated.  Repaired statement for every modelled type: `same_verdict_all_sources_all_types`.
+
+/-- the basetype name `lyplg_type_check_hints` is called with by the store callback of the type -/
+def hintName : Ty → String
+  | .int t _ => t.name
+  | .dec64 _ _ => "dec64"
+  | .bool => "bool"
+  | .enum _ => "enum"
+  | .bits _ => "bits"
+  | .str _ => "string"
+
+/-- AUDIT (repair of the coverage of `same_verdict_all_sources`): for every modelled type — integers, decimal64, boolean,
+    enumeration, bits, string — two hint sets with the same `lyplg_type_check_hints` result give the same store result on
+    every lexical value. -/
+theorem same_verdict_all_sources_all_types (ty : Ty) (h1 h2 : Nat) (s : Bytes)
+    (h : checkHints h1 (hintName ty) = checkHints h2 (hintName ty)) : store ty h1 s = store ty h2 s := by
+  cases ty with
+  | int t r => simp only [store]; rw [storeInt_hints_irrelevant t r h1 h2 s h]
+  | dec64 fd r =>
+    simp only [store]
+    rw [storeDec64_hints_irrelevant fd r h1 h2 s (by rw [show checkHints h1 "dec64" = checkHints h2 "dec64" from h])]
+  | bool => simp only [store, storeBool]; rw [show checkHints h1 "bool" = checkHints h2 "bool" from h]
+  | «enum» items => simp only [store, storeEnum]; rw [show checkHints h1 "enum" = checkHints h2 "enum" from h]
+  | bits items => simp only [store, storeBits]; rw [show checkHints h1 "bits" = checkHints h2 "bits" from h]
+  | str len => simp only [store, storeStr]; rw [show checkHints h1 "string" = checkHints h2 "string" from h]
+
+/-- non-vacuity (audit): a bits type under the data hints and under the bare JSON-string hint, an accepted value -/
+example : store (.bits [⟨[97], 0⟩, ⟨[98], 3⟩, ⟨[99], 9⟩]) Generated.LYD_HINT_DATA [99, 32, 97] =
+      store (.bits [⟨[97], 0⟩, ⟨[98], 3⟩, ⟨[99], 9⟩]) Generated.LYD_VALHINT_STRING [99, 32, 97] ∧
+    store (.bits [⟨[97], 0⟩, ⟨[98], 3⟩, ⟨[99], 9⟩]) Generated.LYD_VALHINT_STRING [99, 32, 97] = .ok (.bits 513) :=
+  ⟨same_verdict_all_sources_all_types _ _ _ _ (by decide), by decide⟩
 
 /-! ## integers -/
 
+-- AUDIT (coverage, no vacuity): `int_accept_iff` and the canonical-form theorems below characterise acceptance under hints
+-- that select base 10 (`hb`).  Under `LYD_HINT_SCHEMA` (defaults: base 0, `0x…`/`0…` accepted; DESIGN §5 C03 names this case)
+-- and, on the pinned tree, under the JSON-string hints of 64-bit integers (F63) no acceptance theorem exists; those routes
+-- are covered by the correspondence check only.  Decision needed: extend `IntLex` to base 0 or state the restriction in
+-- the MANIFEST text.
 /-- Acceptance ⇔ the string is in the RFC 7950 §9.2.1 lexical space (with libyang's whitespace tolerance), its value
     is within the type's bounds and in the union of the range parts.  Base-10 hints; strings without NUL. -/
 theorem int_accept_iff (t : IntTy) (range : List (Int × Int)) (hints : Nat) (s : Bytes) (v : Int)
@@ -121,6 +191,18 @@ theorem int_accept_iff (t : IntTy) (range : List (Int × Int)) (hints : Nat) (s 
 
 example : storeInt .int8 [(-128, -100), (5, 20)] Generated.LYD_HINT_DATA [32, 43, 48, 49, 50, 10] = .ok 12 := by decide
 example : PartsWF (IntTy.min .int8) (IntTy.max .int8) [(-128, -100), (5, 20)] := by simp only [PartsWF]; decide
+/-- non-vacuity (audit): the theorem at int8 with a two-part range, `" +012\n"` — all three hypotheses met, ⇒ used -/
+example : IntLexWs [32, 43, 48, 49, 50, 10] 12 ∧ IntTy.min .int8 ≤ 12 ∧ 12 ≤ IntTy.max .int8 ∧ InParts [(-128, -100), (5, 20)] 12 :=
+  (int_accept_iff .int8 [(-128, -100), (5, 20)] Generated.LYD_HINT_DATA [32, 43, 48, 49, 50, 10] 12
+    (by decide) (by decide) (by simp only [PartsWF]; decide)).mp (by decide)
+/-- non-vacuity (audit): unsigned 64-bit, range `0..5 | 2⁶³..max`, the value 2⁶⁴−1 (above the signed range) -/
+example : IntLexWs [49, 56, 52, 52, 54, 55, 52, 52, 48, 55, 51, 55, 48, 57, 53, 53, 49, 54, 49, 53] (2 ^ 64 - 1) ∧
+    IntTy.min .uint64 ≤ 2 ^ 64 - 1 ∧ (2 ^ 64 - 1 : Int) ≤ IntTy.max .uint64 ∧ InParts [(0, 5), (2 ^ 63, 2 ^ 64 - 1)] (2 ^ 64 - 1) :=
+  (int_accept_iff .uint64 [(0, 5), (2 ^ 63, 2 ^ 64 - 1)] Generated.LYD_HINT_DATA
+    [49, 56, 52, 52, 54, 55, 52, 52, 48, 55, 51, 55, 48, 57, 53, 53, 49, 54, 49, 53] (2 ^ 64 - 1)
+    (by decide) (by decide) (by simp only [PartsWF]; decide)).mp (by decide)
+/-- non-vacuity (audit): the left side of the ⇔ is not always true — `6` lies between the parts and is refused -/
+example : ¬ storeInt .uint64 [(0, 5), (2 ^ 63, 2 ^ 64 - 1)] Generated.LYD_HINT_DATA [54] = .ok 6 := by decide
 
 /-- `lyplg_type_validate_range` on an ascending disjoint part list decides membership in the union — in the signed
     branch for every value, in the unsigned branch (64-bit patterns compared as `uint64_t`) for every value of `[0, 2⁶⁴)`. -/
@@ -133,6 +215,14 @@ theorem range_check_correct (lo hi : Int) (parts : List (Int × Int)) (v : Int) 
   exact validateRange_signed_iff parts v hwf
 
 example : validateRange true [(0, 5), (2 ^ 63, 2 ^ 64 - 1)] (2 ^ 63 + 1) = true ∧ validateRange true [(0, 5), (2 ^ 63, 2 ^ 64 - 1)] 6 = false := by decide
+/-- non-vacuity (audit): unsigned branch, `lo = 0`, `hi = 2⁶⁴−1`, two parts, a value above 2⁶³ — all side conditions met -/
+example : validateRange true [(0, 5), (2 ^ 63, 2 ^ 64 - 1)] (2 ^ 63 + 1) = true ↔ InParts [(0, 5), (2 ^ 63, 2 ^ 64 - 1)] (2 ^ 63 + 1) :=
+  (range_check_correct 0 (2 ^ 64 - 1) [(0, 5), (2 ^ 63, 2 ^ 64 - 1)] (2 ^ 63 + 1) (by simp only [PartsWF]; decide)).2
+    (by decide) (by decide) (by decide) (by decide)
+/-- non-vacuity (audit): signed branch, two parts with negative bounds; a member (⇒) and a value in the gap (⇐, contrapositive) -/
+example : InParts [(-128, -100), (5, 20)] (-100) ∧ ¬ InParts [(-128, -100), (5, 20)] 4 :=
+  ⟨(range_check_correct (-128) 127 [(-128, -100), (5, 20)] (-100) (by simp only [PartsWF]; decide)).1.mp (by decide),
+   fun h => absurd ((range_check_correct (-128) 127 [(-128, -100), (5, 20)] 4 (by simp only [PartsWF]; decide)).1.mpr h) (by decide)⟩
 
 /-- The signed/unsigned choice matters: on the bit pattern of a uint64 above 2⁶³ the signed comparison is wrong. -/
 theorem range_branch_matters : validateRange false [(0, 5), (2 ^ 63, 2 ^ 64 - 1)] (2 ^ 63 + 1 - 2 ^ 64) = false ∧
@@ -145,6 +235,11 @@ theorem int_canon_idempotent (t : IntTy) (range : List (Int × Int)) (hints : Na
     storeInt t range hints (canonInt v) = .ok v :=
   storeInt_canon t range hints v hb hwf hlo hhi hin
 
+/-- non-vacuity (audit): int8 with a two-part range, the lower bound −128 -/
+example : storeInt .int8 [(-128, -100), (5, 20)] Generated.LYD_HINT_DATA (canonInt (-128)) = .ok (-128) :=
+  int_canon_idempotent .int8 [(-128, -100), (5, 20)] Generated.LYD_HINT_DATA (-128) (by decide)
+    (by simp only [PartsWF]; decide) (by decide) (by decide) (by simp only [InParts]; decide)
+
 /-- … and therefore the canonical form of whatever was parsed re-parses to the same value and the same canonical form. -/
 theorem int_canon_of_parsed (t : IntTy) (range : List (Int × Int)) (hints : Nat) (s : Bytes) (v : Int)
     (h0 : (0 : UInt8) ∉ s) (hb : checkHints hints t.name = some 10) (hwf : PartsWF t.min t.max range)
@@ -153,13 +248,26 @@ theorem int_canon_of_parsed (t : IntTy) (range : List (Int × Int)) (hints : Nat
   exact storeInt_canon t range hints v hb hwf hlo hhi hin
 
 example : canonInt (-128) = [45, 49, 50, 56] ∧ storeInt .int8 [] Generated.LYD_HINT_DATA [45, 49, 50, 56] = .ok (-128) := by decide
+/-- non-vacuity (audit): the non-canonical `" +012\n"` under a two-part range re-parses from its canonical form `12` -/
+example : storeInt .int8 [(-128, -100), (5, 20)] Generated.LYD_HINT_DATA (canonInt 12) = .ok 12 ∧ canonInt 12 = [49, 50] :=
+  ⟨int_canon_of_parsed .int8 [(-128, -100), (5, 20)] Generated.LYD_HINT_DATA [32, 43, 48, 49, 50, 10] 12
+    (by decide) (by decide) (by simp only [PartsWF]; decide) (by decide), by decide⟩
 
 /-- The canonical form of an integer is the RFC 7950 §9.2.2 one: no `+`, no leading zeros, zero is `0`. -/
 theorem int_canon_is_rfc_canonical (v : Int) : IsCanonInt (canonInt v) := intDec_canonical v
 
+/-- non-vacuity (audit): `IsCanonInt` is not trivially true — `01`, `-0` and `+1` are not canonical -/
+example : IsCanonInt (canonInt (-128)) ∧ ¬ IsCanonInt [48, 49] ∧ ¬ IsCanonInt [45, 48] ∧ ¬ IsCanonInt [43, 49] := by
+  refine ⟨int_canon_is_rfc_canonical _, ?_, ?_, ?_⟩ <;>
+    (rintro ⟨sg, ds, hs, hsg | hsg, hne, hd, hz⟩ <;> subst hsg <;> simp at hs <;> subst hs <;> simp_all <;>
+      exact absurd hd.1 (by decide))
+
 /-- Equality of integer values ⇔ equality of canonical strings. -/
 theorem int_eq_iff_canon_eq (a b : Int) : a = b ↔ canonInt a = canonInt b :=
   ⟨fun h => h ▸ rfl, intDec_injective⟩
+
+/-- non-vacuity (audit): no hypotheses; ⇐ used to separate two values whose digit strings differ only by a zero and a sign -/
+example : canonInt (-10) ≠ canonInt 100 := fun h => absurd ((int_eq_iff_canon_eq (-10) 100).mpr h) (by decide)
 
 /-- value → LYB → value is the identity on every value of the type (two's complement, little endian, `lybSize` bytes). -/
 theorem int_lyb_roundtrip (t : IntTy) (range : List (Int × Int)) (hints : Nat) (s : Bytes) (v : Int)
@@ -168,6 +276,9 @@ theorem int_lyb_roundtrip (t : IntTy) (range : List (Int × Int)) (hints : Nat) 
   exact ⟨unlybInt_lybInt t range v hlo hhi hr, leBytes_length _ _⟩
 
 example : lybInt .int16 (-2) = [0xfe, 0xff] ∧ unlybInt .int16 [] [0xfe, 0xff] = .ok (-2) := by decide
+/-- non-vacuity (audit): the theorem at int16 with a range, the negative value `-2` -/
+example : unlybInt .int16 [(-5, 5)] (lybInt .int16 (-2)) = .ok (-2) ∧ (lybInt .int16 (-2)).length = IntTy.lybSize .int16 :=
+  int_lyb_roundtrip .int16 [(-5, 5)] Generated.LYD_HINT_DATA [45, 50] (-2) (by decide)
 
 /-! ## decimal64 -/
 
@@ -203,9 +314,25 @@ theorem dec64_accept_iff_partial (nd : Bool) (fd : Nat) (hfd : 1 ≤ fd) (range 
     storeDec64With nd fd range hints s = .ok k ↔ DecLexWs nd fd s k ∧ -(2 ^ 63) ≤ k ∧ k ≤ 2 ^ 63 - 1 ∧ InParts range k :=
   storeDec64_accept_iff nd fd hfd range hints s k hh hwf
 
+/-- the two-part decimal64 range of the audit witnesses below is a compiled one -/
+theorem auditDecRange_wf : PartsWF (-(2 ^ 63)) (2 ^ 63 - 1) [(-100, 100), (500, 9223372036854775807)] := by
+  simp only [PartsWF]; decide
+
+/-- non-vacuity (audit): pinned-tree variant, fd = 1, two-part range, `-.5` (no integer digit) — ⇒ used -/
+example : DecLexWs false 1 [45, 46, 53] (-5) ∧ -(2 ^ 63) ≤ (-5 : Int) ∧ (-5 : Int) ≤ 2 ^ 63 - 1 ∧
+    InParts [(-100, 100), (500, 9223372036854775807)] (-5) :=
+  (dec64_accept_iff_partial false 1 (by decide) [(-100, 100), (500, 9223372036854775807)] Generated.LYD_HINT_DATA [45, 46, 53] (-5)
+    (by decide) auditDecRange_wf).mp (by decide)
+
 /-- With the repair of F2 (a digit must follow the sign) the full statement holds. -/
 theorem dec64_accept_iff_repaired : Dec64AcceptIff true :=
   fun fd hfd _ range hints s k hh hwf => storeDec64_accept_iff true fd hfd range hints s k hh hwf
+
+/-- non-vacuity (audit): fd = 2, two-part range, `-0.500 ` (surplus zero, trailing blank) = mantissa −50 -/
+example : DecLexWs true 2 [45, 48, 46, 53, 48, 48, 32] (-50) ∧ -(2 ^ 63) ≤ (-50 : Int) ∧ (-50 : Int) ≤ 2 ^ 63 - 1 ∧
+    InParts [(-100, 100), (500, 9223372036854775807)] (-50) :=
+  (dec64_accept_iff_repaired 2 (by decide) (by decide) [(-100, 100), (500, 9223372036854775807)] Generated.LYD_HINT_DATA
+    [45, 48, 46, 53, 48, 48, 32] (-50) (by decide) auditDecRange_wf).mp (by decide)
 
 /-- The source at hand, whichever variant it is. -/
 theorem dec64_accept_iff_current (fd : Nat) (hfd : 1 ≤ fd) (range : List (Int × Int)) (hints : Nat) (s : Bytes) (k : Int)
@@ -214,6 +341,12 @@ theorem dec64_accept_iff_current (fd : Nat) (hfd : 1 ≤ fd) (range : List (Int 
       DecLexWs Generated.dec64SignNeedsDigit fd s k ∧ -(2 ^ 63) ≤ k ∧ k ≤ 2 ^ 63 - 1 ∧ InParts range k :=
   storeDec64_accept_iff _ fd hfd range hints s k hh hwf
 
+/-- non-vacuity (audit): the same witness for the parser of the tree at hand (accepted by either variant) -/
+example : DecLexWs Generated.dec64SignNeedsDigit 2 [45, 48, 46, 53, 48, 48, 32] (-50) ∧ -(2 ^ 63) ≤ (-50 : Int) ∧
+    (-50 : Int) ≤ 2 ^ 63 - 1 ∧ InParts [(-100, 100), (500, 9223372036854775807)] (-50) :=
+  (dec64_accept_iff_current 2 (by decide) [(-100, 100), (500, 9223372036854775807)] Generated.LYD_HINT_DATA
+    [45, 48, 46, 53, 48, 48, 32] (-50) (by decide) auditDecRange_wf).mp (by decide)
+
 /-- Every RFC lexical value with a representable in-range mantissa is accepted with that mantissa by both variants (the ⇐
     half of the full statement always holds; only ⇒ fails, and only for the forms without an integer digit). -/
 theorem dec64_accepts_rfc (nd : Bool) (fd : Nat) (hfd : 1 ≤ fd) (range : List (Int × Int)) (hints : Nat) (s : Bytes) (k : Int)
@@ -221,6 +354,12 @@ theorem dec64_accepts_rfc (nd : Bool) (fd : Nat) (hfd : 1 ≤ fd) (range : List 
     (hl : DecLexWs true fd s k) (hlo : -(2 ^ 63) ≤ k) (hhi : k ≤ 2 ^ 63 - 1) (hin : InParts range k) :
     storeDec64With nd fd range hints s = .ok k :=
   (storeDec64_accept_iff nd fd hfd range hints s k hh hwf).mpr ⟨hl.weaken nd, hlo, hhi, hin⟩
+
+/-- non-vacuity (audit): an RFC lexical value (`DecLexWs true`, obtained from the repaired variant) is accepted by the pinned one -/
+example : storeDec64With false 2 [(-100, 100), (500, 9223372036854775807)] Generated.LYD_HINT_DATA [45, 48, 46, 53, 48, 48, 32] = .ok (-50) :=
+  have h := (dec64_accept_iff_repaired 2 (by decide) (by decide) [(-100, 100), (500, 9223372036854775807)] Generated.LYD_HINT_DATA
+    [45, 48, 46, 53, 48, 48, 32] (-50) (by decide) auditDecRange_wf).mp (by decide)
+  dec64_accepts_rfc false 2 (by decide) _ Generated.LYD_HINT_DATA _ (-50) (by decide) auditDecRange_wf h.1 h.2.1 h.2.2.1 h.2.2.2
 
 example : storeDec64With false 1 [] Generated.LYD_HINT_DATA [45, 46, 53] = .ok (-5) ∧
     storeDec64With true 1 [] Generated.LYD_HINT_DATA [45, 46, 53] = .error .BadChar := by decide
@@ -235,12 +374,24 @@ theorem dec64_canon_idempotent (nd : Bool) (fd : Nat) (hfd : 1 ≤ fd) (range : 
     storeDec64With nd fd range hints (num2str fd n) = .ok n :=
   (storeDec64_accept_iff nd fd hfd range hints _ n hh hwf).mpr ⟨(num2str_lex fd hfd n).weaken nd, hlo, hhi, hin⟩
 
+/-- non-vacuity (audit): fd = 18, INT64_MIN, a two-part range starting at INT64_MIN -/
+example : storeDec64With false 18 [(-9223372036854775808, -1), (500, 9223372036854775807)] Generated.LYD_HINT_DATA
+    (num2str 18 (-9223372036854775808)) = .ok (-9223372036854775808) :=
+  dec64_canon_idempotent false 18 (by decide) _ Generated.LYD_HINT_DATA (-9223372036854775808) (by decide)
+    (by simp only [PartsWF]; decide) (by decide) (by decide) (by simp only [InParts]; decide)
+
 /-- … hence for whatever was parsed, the canonical string re-parses to the same value. -/
 theorem dec64_canon_of_parsed (nd : Bool) (fd : Nat) (hfd : 1 ≤ fd) (range : List (Int × Int)) (hints : Nat) (s : Bytes) (k : Int)
     (hh : (checkHints hints "dec64").isSome = true) (hwf : PartsWF (-(2 ^ 63)) (2 ^ 63 - 1) range)
     (h : storeDec64With nd fd range hints s = .ok k) : storeDec64With nd fd range hints (num2str fd k) = .ok k := by
   obtain ⟨_, hlo, hhi, hin⟩ := (storeDec64_accept_iff nd fd hfd range hints s k hh hwf).mp h
   exact dec64_canon_idempotent nd fd hfd range hints k hh hwf hlo hhi hin
+
+/-- non-vacuity (audit): the non-canonical `-0.500 ` under a two-part range re-parses from its canonical form `-0.5` -/
+example : storeDec64With true 2 [(-100, 100), (500, 9223372036854775807)] Generated.LYD_HINT_DATA (num2str 2 (-50)) = .ok (-50) ∧
+    num2str 2 (-50) = [45, 48, 46, 53] :=
+  ⟨dec64_canon_of_parsed true 2 (by decide) _ Generated.LYD_HINT_DATA [45, 48, 46, 53, 48, 48, 32] (-50) (by decide) auditDecRange_wf (by decide),
+   by decide⟩
 
 example : num2str 3 (-5) = [45, 48, 46, 48, 48, 53] ∧ num2str 1 10 = [49, 46, 48] ∧ num2str 18 (-9223372036854775808) =
     [45, 57, 46, 50, 50, 51, 51, 55, 50, 48, 51, 54, 56, 53, 52, 55, 55, 53, 56, 48, 56] := by decide
@@ -251,6 +402,22 @@ theorem dec64_canon_is_rfc_canonical (fd : Nat) (hfd : 1 ≤ fd) (n : Int) :
     IsCanonDec (num2str fd n) ∧ DecLexWs true fd (num2str fd n) n :=
   ⟨num2str_canonical fd hfd n, num2str_lex fd hfd n⟩
 
+/-- non-vacuity (audit): `IsCanonDec` is not trivially true — `1.50` (superfluous trailing zero) is not canonical -/
+example : IsCanonDec (num2str 2 (-50)) ∧ ¬ IsCanonDec [49, 46, 53, 48] := by
+  refine ⟨(dec64_canon_is_rfc_canonical 2 (by decide) (-50)).1, ?_⟩
+  rintro ⟨sg, ip, fr, hs, hsg | hsg, hip, hfr, hdi, hdf, hz, hl⟩ <;> subst hsg
+  · match ip, hip with
+    | [a], _ =>
+      simp at hs
+      obtain ⟨_, rfl⟩ := hs
+      exact absurd (hl rfl) (by decide)
+    | a :: b :: r, _ =>
+      simp at hs
+      obtain ⟨_, rfl, _⟩ := hs
+      simp at hdi
+      exact absurd hdi.2.1 (by decide)
+  · simp at hs
+
 /-- The two `sprintf`s of `decimal64_num2str` and the NUL fit the `LY_NUMBER_MAXLEN` (generated) buffer for every int64
     mantissa and fraction-digits ≤ 18 — with nothing to spare at `INT64_MIN`. -/
 theorem dec64_num2str_fits (fd : Nat) (hfd : fd ≤ 18) (n : Int) (hlo : -(2 ^ 63) ≤ n) (hhi : n ≤ 2 ^ 63 - 1) :
@@ -258,6 +425,9 @@ theorem dec64_num2str_fits (fd : Nat) (hfd : fd ≤ 18) (n : Int) (hlo : -(2 ^ 6
   num2str_fits fd hfd n hlo hhi
 
 example : num2strBufNeed 18 (-9223372036854775808) = Generated.LY_NUMBER_MAXLEN := by decide
+/-- non-vacuity (audit): the theorem at the tight case fd = 18, INT64_MIN, and at a zero-padded one (fd = 18, mantissa 7) -/
+example : num2strBufNeed 18 (-9223372036854775808) ≤ Generated.LY_NUMBER_MAXLEN ∧ num2strBufNeed 18 7 ≤ Generated.LY_NUMBER_MAXLEN :=
+  ⟨dec64_num2str_fits 18 (by decide) _ (by decide) (by decide), dec64_num2str_fits 18 (by decide) 7 (by decide) (by decide)⟩
 
 /-- Equality of decimal64 values ⇔ equality of canonical strings (same fraction-digits). -/
 theorem dec64_eq_iff_canon_eq (fd : Nat) (hfd : 1 ≤ fd) (a b : Int)
@@ -270,10 +440,18 @@ theorem dec64_eq_iff_canon_eq (fd : Nat) (hfd : 1 ≤ fd) (a b : Int)
     rw [h, h2] at h1
     injection h1 with h1; exact h1.symm
 
+/-- non-vacuity (audit): two different mantissas whose digit strings differ only by a zero (`1.0` / `10.0`) -/
+example : num2str 1 10 ≠ num2str 1 100 :=
+  fun h => absurd ((dec64_eq_iff_canon_eq 1 (by decide) 10 100 (by decide) (by decide)).mpr h) (by decide)
+
 theorem dec64_lyb_roundtrip (nd : Bool) (fd : Nat) (range : List (Int × Int)) (hints : Nat) (s : Bytes) (v : Int)
     (h : storeDec64With nd fd range hints s = .ok v) : unlybDec64 range (lybDec64 v) = .ok v ∧ (lybDec64 v).length = 8 := by
   obtain ⟨hlo, hhi, hr⟩ := storeDec64_ok_bounds h
   exact ⟨unlybDec64_lybDec64 range v hlo hhi hr, leBytes_length _ _⟩
+
+/-- non-vacuity (audit): a negative mantissa stored from `-.5` (fd 2) under a range -/
+example : unlybDec64 [(-100, 100)] (lybDec64 (-50)) = .ok (-50) ∧ (lybDec64 (-50)).length = 8 :=
+  dec64_lyb_roundtrip false 2 [(-100, 100)] Generated.LYD_HINT_DATA [45, 46, 53] (-50) (by decide)
 
 /-! ## all modelled types at once (integers, decimal64, boolean, enumeration, bits, string)
 
@@ -317,6 +495,87 @@ example : (Ty.dec64 2 []).WF ∧ Stored (.dec64 2 []) (.num (-50)) ∧ canon (.d
 example : sort (.bits [⟨[97], 0⟩, ⟨[98], 3⟩, ⟨[99], 9⟩]) (.bits 513) (.bits 8) = -1 ∧ lyb (.bits [⟨[97], 0⟩, ⟨[98], 3⟩, ⟨[99], 9⟩]) (.bits 513) = [1, 2] := by
   decide
 
+/-! non-vacuity (audit): the witnesses above cover bits, a signed integer and decimal64.  The remaining kinds the section
+header names — enumeration, string (with a length restriction and multi-byte characters), boolean, an unsigned 64-bit
+integer — and the five theorems instantiated at the witnesses: -/
+
+/-- non-vacuity (audit): enumeration `x = 0, y = 5, z = -3` (declaration order ≠ value order, a negative value) -/
+def auditEnum : Ty := .enum [⟨[120], 0⟩, ⟨[121], 5⟩, ⟨[122], -3⟩]
+theorem auditEnum_wf : auditEnum.WF := ⟨by decide, by decide, by decide⟩
+theorem auditEnum_stored_x : Stored auditEnum (.enum ⟨[120], 0⟩) := ⟨Generated.LYD_HINT_DATA, [120], by decide⟩
+theorem auditEnum_stored_y : Stored auditEnum (.enum ⟨[121], 5⟩) := ⟨Generated.LYD_HINT_DATA, [121], by decide⟩
+theorem auditEnum_stored_z : Stored auditEnum (.enum ⟨[122], -3⟩) := ⟨Generated.LYD_HINT_DATA, [122], by decide⟩
+
+/-- non-vacuity (audit): string with `length "2..3 | 5"`; values `aé` (2 characters in 3 bytes) and `€bc` (3 in 5) -/
+def auditStr : Ty := .str [(2, 3), (5, 5)]
+theorem auditStr_wf : auditStr.WF := trivial
+theorem auditStr_stored_1 : Stored auditStr (.str [97, 0xC3, 0xA9]) := ⟨Generated.LYD_HINT_DATA, [97, 0xC3, 0xA9], by decide⟩
+theorem auditStr_stored_2 : Stored auditStr (.str [0xE2, 0x82, 0xAC, 98, 99]) :=
+  ⟨Generated.LYD_HINT_DATA, [0xE2, 0x82, 0xAC, 98, 99], by decide⟩
+/-- … and the length restriction is a real one: the one-character `a` is refused -/
+example : store auditStr Generated.LYD_HINT_DATA [97] = .error .Length := by decide
+
+/-- non-vacuity (audit): uint64 with `range "0..5 | 9223372036854775808..max"` (unsigned range branch above 2⁶³) -/
+def auditU64 : Ty := .int .uint64 [(0, 5), (2 ^ 63, 2 ^ 64 - 1)]
+theorem auditU64_wf : auditU64.WF := by simp only [auditU64, Ty.WF, PartsWF]; decide
+theorem auditU64_stored_max : Stored auditU64 (.num (2 ^ 64 - 1)) :=
+  ⟨Generated.LYD_HINT_DATA, [49, 56, 52, 52, 54, 55, 52, 52, 48, 55, 51, 55, 48, 57, 53, 53, 49, 54, 49, 53], by decide⟩
+theorem auditU64_stored_3 : Stored auditU64 (.num 3) := ⟨Generated.LYD_HINT_DATA, [43, 51], by decide⟩
+
+/-- non-vacuity (audit): the bits type of the example above (positions 0, 3, 9), three stored values -/
+def auditBits : Ty := .bits [⟨[97], 0⟩, ⟨[98], 3⟩, ⟨[99], 9⟩]
+theorem auditBits_wf : auditBits.WF := ⟨by decide, by decide, by decide⟩
+theorem auditBits_stored_513 : Stored auditBits (.bits 513) := ⟨Generated.LYD_HINT_DATA, [99, 32, 32, 97], by decide⟩
+theorem auditBits_stored_8 : Stored auditBits (.bits 8) := ⟨Generated.LYD_HINT_DATA, [98], by decide⟩
+theorem auditBits_stored_9 : Stored auditBits (.bits 9) := ⟨Generated.LYD_HINT_DATA, [98, 10, 97], by decide⟩
+theorem auditBool_stored : Stored .bool (.bool false) := ⟨Generated.LYD_HINT_DATA, strFalse, by decide⟩
+
+/-- non-vacuity (audit): `canon_idempotent` at an enum, a multi-byte string, uint64 max, a bits value, a boolean -/
+example : store auditEnum Generated.LYD_HINT_DATA (canon auditEnum (.enum ⟨[122], -3⟩)) = .ok (.enum ⟨[122], -3⟩) :=
+  canon_idempotent _ auditEnum_wf _ auditEnum_stored_z
+example : store auditStr Generated.LYD_HINT_DATA (canon auditStr (.str [97, 0xC3, 0xA9])) = .ok (.str [97, 0xC3, 0xA9]) :=
+  canon_idempotent _ auditStr_wf _ auditStr_stored_1
+example : store auditU64 Generated.LYD_HINT_DATA (canon auditU64 (.num (2 ^ 64 - 1))) = .ok (.num (2 ^ 64 - 1)) :=
+  canon_idempotent _ auditU64_wf _ auditU64_stored_max
+example : store auditBits Generated.LYD_HINT_DATA (canon auditBits (.bits 513)) = .ok (.bits 513) ∧ canon auditBits (.bits 513) = [97, 32, 99] :=
+  ⟨canon_idempotent _ auditBits_wf _ auditBits_stored_513, by decide⟩
+example : store .bool Generated.LYD_HINT_DATA (canon .bool (.bool false)) = .ok (.bool false) :=
+  canon_idempotent .bool trivial _ auditBool_stored
+
+/-- non-vacuity (audit): `eq_iff_canon_eq`, ⇒ refuting equality of two different enums, ⇐ on equal bits values -/
+example : cmpEq auditEnum (.enum ⟨[122], -3⟩) (.enum ⟨[121], 5⟩) ≠ true ∧ cmpEq auditBits (.bits 513) (.bits 513) = true :=
+  ⟨fun h => absurd ((eq_iff_canon_eq _ auditEnum_wf _ _ auditEnum_stored_z auditEnum_stored_y).mp h) (by decide),
+   (eq_iff_canon_eq _ auditBits_wf _ _ auditBits_stored_513 auditBits_stored_513).mpr rfl⟩
+
+/-- non-vacuity (audit): `sort_total_order` — transitivity over three different enums (`y`, `x`, `z`: descending values),
+    antisymmetry on bits, uint64 (3 vs. 2⁶⁴−1) and multi-byte strings -/
+example : sort auditEnum (.enum ⟨[121], 5⟩) (.enum ⟨[122], -3⟩) ≤ 0 :=
+  (sort_total_order _ auditEnum_wf _ _ _ auditEnum_stored_y auditEnum_stored_x auditEnum_stored_z).2 (by decide) (by decide)
+example : sort auditBits (.bits 8) (.bits 513) = -sort auditBits (.bits 513) (.bits 8) ∧ sort auditBits (.bits 513) (.bits 8) = -1 :=
+  ⟨(sort_total_order _ auditBits_wf _ _ (.bits 9) auditBits_stored_8 auditBits_stored_513 auditBits_stored_9).1, by decide⟩
+example : sort auditU64 (.num 3) (.num (2 ^ 64 - 1)) = -sort auditU64 (.num (2 ^ 64 - 1)) (.num 3) ∧
+    sort auditU64 (.num 3) (.num (2 ^ 64 - 1)) = -1 :=
+  ⟨(sort_total_order _ auditU64_wf _ _ (.num 3) auditU64_stored_3 auditU64_stored_max auditU64_stored_3).1, by decide⟩
+example : sort auditStr (.str [97, 0xC3, 0xA9]) (.str [0xE2, 0x82, 0xAC, 98, 99]) =
+    -sort auditStr (.str [0xE2, 0x82, 0xAC, 98, 99]) (.str [97, 0xC3, 0xA9]) :=
+  (sort_total_order _ auditStr_wf _ _ (.str [97, 0xC3, 0xA9]) auditStr_stored_1 auditStr_stored_2 auditStr_stored_1).1
+
+/-- non-vacuity (audit): `sort_consistent_with_eq` — non-zero on two different enums (⇒ of the second ⇔), zero on equal strings (⇐) -/
+example : sort auditEnum (.enum ⟨[122], -3⟩) (.enum ⟨[121], 5⟩) ≠ 0 ∧ sort auditStr (.str [97, 0xC3, 0xA9]) (.str [97, 0xC3, 0xA9]) = 0 :=
+  ⟨fun h => absurd ((sort_consistent_with_eq _ auditEnum_wf _ _ auditEnum_stored_z auditEnum_stored_y).2.mp h) (by decide),
+   (sort_consistent_with_eq _ auditStr_wf _ _ auditStr_stored_1 auditStr_stored_1).2.mpr rfl⟩
+
+/-- non-vacuity (audit): `lyb_value_roundtrip` at a negative enum value, uint64 max, a bits value, a multi-byte string -/
+example : unlyb auditEnum (lyb auditEnum (.enum ⟨[122], -3⟩)) = .ok (.enum ⟨[122], -3⟩) ∧
+    lyb auditEnum (.enum ⟨[122], -3⟩) = [0xfd, 0xff, 0xff, 0xff] :=
+  ⟨lyb_value_roundtrip _ auditEnum_wf _ auditEnum_stored_z, by decide⟩
+example : unlyb auditU64 (lyb auditU64 (.num (2 ^ 64 - 1))) = .ok (.num (2 ^ 64 - 1)) ∧
+    lyb auditU64 (.num (2 ^ 64 - 1)) = [255, 255, 255, 255, 255, 255, 255, 255] :=
+  ⟨lyb_value_roundtrip _ auditU64_wf _ auditU64_stored_max, by decide⟩
+example : unlyb auditBits (lyb auditBits (.bits 513)) = .ok (.bits 513) := lyb_value_roundtrip _ auditBits_wf _ auditBits_stored_513
+example : unlyb auditStr (lyb auditStr (.str [0xE2, 0x82, 0xAC, 98, 99])) = .ok (.str [0xE2, 0x82, 0xAC, 98, 99]) :=
+  lyb_value_roundtrip _ auditStr_wf _ auditStr_stored_2
+
 /-! ## bits -/
 
 /-- The canonical string of a bits value lists exactly the set bits in position (= declaration) order, whatever the
@@ -333,6 +592,17 @@ theorem bits_canonical_order (items : List BitItem) (hwf : BitsWF items) (hints 
 example : storeBits [⟨[97], 0⟩, ⟨[98], 3⟩, ⟨[99], 9⟩] Generated.LYD_HINT_DATA [99, 32, 32, 97] = .ok 513 ∧
     canonBits [⟨[97], 0⟩, ⟨[98], 3⟩, ⟨[99], 9⟩] 513 = [97, 32, 99] ∧
     storeBits [⟨[97], 0⟩, ⟨[98], 3⟩, ⟨[99], 9⟩] Generated.LYD_HINT_DATA [97, 32, 97] = .error .DupBit := by decide
+/-- non-vacuity (audit): the theorem at the three-bit type with a gap; `c  a` (data hints) and `<TAB>a<LF>c` (JSON-string
+    hint) name the same bits in different order and spacing and give the same bitmap -/
+example : canonBits [⟨[97], 0⟩, ⟨[98], 3⟩, ⟨[99], 9⟩] 513 =
+      joinSp (([⟨[97], 0⟩, ⟨[98], 3⟩, ⟨[99], 9⟩] : List BitItem).filter (fun it => (513 : Nat).testBit it.pos) |>.map (·.name)) ∧
+    (∀ m', storeBits [⟨[97], 0⟩, ⟨[98], 3⟩, ⟨[99], 9⟩] Generated.LYD_VALHINT_STRING [9, 97, 10, 99] = .ok m' → m' = 513) :=
+  have h := bits_canonical_order [⟨[97], 0⟩, ⟨[98], 3⟩, ⟨[99], 9⟩] ⟨by decide, by decide, by decide⟩ Generated.LYD_HINT_DATA
+    [99, 32, 32, 97] 513 (by decide)
+  ⟨h.1, fun m' hm => h.2 Generated.LYD_VALHINT_STRING [9, 97, 10, 99] m' hm (by
+    intro tok
+    rw [show tokens [99, 32, 32, 97] = [[99], [97]] by decide, show tokens [9, 97, 10, 99] = [[97], [99]] by decide]
+    simp [or_comm])⟩
 
 /-! ## ordering, per callback -/
 
@@ -342,6 +612,9 @@ theorem enum_sort_is_descending (a b : EnumItem) :
     sortEnum a b = cmpInt b.value a.value ∧ (sortEnum a b = 0 ↔ a.value = b.value) := by
   unfold sortEnum cmpInt
   refine ⟨?_, ?_⟩ <;> split <;> (try split) <;> (try split) <;> (try split) <;> omega
+
+/-- non-vacuity (audit): no hypotheses; the greater value sorts first -/
+example : sortEnum ⟨[121], 5⟩ ⟨[122], -3⟩ = -1 := by decide
 
 /-! ## boolean, enumeration -/
 
@@ -361,9 +634,18 @@ theorem bool_accept_iff (hints : Nat) (s : Bytes) (b : Bool) (hh : (checkHints h
         simp only [e1, e2, Bool.false_eq_true, if_false, reduceCtorEq, false_iff]
         cases b <;> simp [canonBool] <;> assumption
 
+/-- non-vacuity (audit): the data hints offer the boolean hint; `true` is accepted (⇐), `True` is not (⇒, contrapositive) -/
+example : storeBool Generated.LYD_HINT_DATA strTrue = .ok true ∧ ¬ storeBool Generated.LYD_HINT_DATA [84, 114, 117, 101] = .ok true :=
+  ⟨(bool_accept_iff Generated.LYD_HINT_DATA strTrue true (by decide)).mpr rfl,
+   fun h => absurd ((bool_accept_iff Generated.LYD_HINT_DATA [84, 114, 117, 101] true (by decide)).mp h) (by decide)⟩
+
 theorem bool_canon_lyb (b : Bool) (hints : Nat) (hh : (checkHints hints "bool").isSome = true) :
     storeBool hints (canonBool b) = .ok b ∧ unlybBool (lybBool b) = .ok b :=
   ⟨storeBool_canon hints b hh, unlybBool_lybBool b⟩
+
+/-- non-vacuity (audit): under the bare JSON boolean hint -/
+example : storeBool Generated.LYD_VALHINT_BOOLEAN (canonBool false) = .ok false ∧ unlybBool (lybBool false) = .ok false :=
+  bool_canon_lyb false Generated.LYD_VALHINT_BOOLEAN (by decide)
 
 /-- An enumeration value is accepted exactly when it is the name of an item; it round-trips through its canonical
     string (the name) and through LYB (the int32 value). -/
@@ -376,6 +658,12 @@ theorem enum_accept_iff (items : List EnumItem) (hints : Nat) (s : Bytes) (it : 
 
 example : storeEnum [⟨[120], 0⟩, ⟨[121], 5⟩, ⟨[122], -3⟩] Generated.LYD_HINT_DATA [122] = .ok ⟨[122], -3⟩ ∧
     lybEnum ⟨[122], -3⟩ = [0xfd, 0xff, 0xff, 0xff] := by decide
+/-- non-vacuity (audit): the theorem at `x = 0, y = 5, z = -3` (`EnumWF` met), the item with the negative value -/
+example : storeEnum [⟨[120], 0⟩, ⟨[121], 5⟩, ⟨[122], -3⟩] Generated.LYD_HINT_DATA [122] = .ok ⟨[122], -3⟩ ∧
+    unlybEnum [⟨[120], 0⟩, ⟨[121], 5⟩, ⟨[122], -3⟩] (lybEnum ⟨[122], -3⟩) = .ok ⟨[122], -3⟩ :=
+  have h := enum_accept_iff [⟨[120], 0⟩, ⟨[121], 5⟩, ⟨[122], -3⟩] Generated.LYD_HINT_DATA [122] ⟨[122], -3⟩
+    ⟨by decide, by decide, by decide⟩ (by decide)
+  ⟨h.1.mpr ⟨by decide, rfl⟩, (h.2 (by decide)).2⟩
 
 /-! ## strings: the value API and the lexers validate characters with different functions -/
 
@@ -403,5 +691,14 @@ theorem utf8_validators_agree_partial (inp : Bytes) (inLen : Nat) (hz : ∀ i, i
 
 example : storeStr [] Generated.LYD_HINT_DATA [0xEF, 0xBF, 0xBE] = .ok [0xEF, 0xBF, 0xBE] ∧ Utf8.isYangText [0xEF, 0xBF, 0xBE] = false ∧
     Utf8.checkUtf8 [0xE2, 0x82, 0xAC] 3 = some 3 ∧ Utf8.getUtf8 [0xE2, 0x82, 0xAC] = some (0x20AC, 3) := by decide
+/-- non-vacuity (audit): `€A` — a 3-byte character followed by another one; all four hypotheses met, both accept with length 3 -/
+example : Utf8.checkUtf8 [0xE2, 0x82, 0xAC, 0x41] 4 = (Utf8.getUtf8 [0xE2, 0x82, 0xAC, 0x41]).map (fun x => x.snd) ∧
+    Utf8.checkUtf8 [0xE2, 0x82, 0xAC, 0x41] 4 = some 3 :=
+  ⟨utf8_validators_agree_partial [0xE2, 0x82, 0xAC, 0x41] 4 (by intro i hi; match i, hi with | i + 4, _ => rfl) (by decide) (by decide) (by decide),
+   by decide⟩
+/-- non-vacuity (audit): a rejected sequence — a 3-byte form truncated by the end of the string: both refuse -/
+example : Utf8.checkUtf8 [0xE2, 0x82] 2 = (Utf8.getUtf8 [0xE2, 0x82]).map (fun x => x.snd) ∧ Utf8.checkUtf8 [0xE2, 0x82] 2 = none :=
+  ⟨utf8_validators_agree_partial [0xE2, 0x82] 2 (by intro i hi; match i, hi with | i + 2, _ => rfl) (by decide) (by decide) (by decide),
+   by decide⟩
 
 end LyModel.Props.C03
